@@ -60,9 +60,18 @@ func runCase(t *vlib.T, c tc) {
 			o.Violation = fmt.Sprintf("template %q context %s: %s (output %q)", c.src, showCtx(ctx), o.Violation, out)
 			o.Detail = map[string]interface{}{"template": c.src, "context": showCtx(ctx), "output": out}
 		}
-		o.Counters = map[string]int64{"renders": 1}
+		o.Counters = map[string]int64{"renders": 1, "cases_" + family(c.key): 1}
 		return o
 	})
+}
+
+// family is the law table a case belongs to (first key segment, two for the number laws)
+func family(key string) string {
+	p := strings.SplitN(key, "/", 3)
+	if len(p) >= 2 && (p[0] == "num" || p[0] == "reverse") {
+		return p[0] + "_" + p[1]
+	}
+	return p[0]
 }
 
 func showCtx(ctx map[string]interface{}) string {
@@ -1372,7 +1381,7 @@ func lawNumbers(t *vlib.T, s int, maxK int64) {
 	// large values: grouping by three
 	for i, c := range []struct {
 		lit, args, want string
-		known         string
+		known           string
 	}{
 		{"999", "", "999", ""}, {"1000", "", "1,000", ""}, {"999999", "", "999,999", ""}, {"1000000", "", "1,000,000", ""}, {"123456789", "", "123,456,789", ""},
 		{"(-1000)", "", "-1,000", ""}, {"(-999)", "", "-999", ""}, {"(-123456)", "", "-123,456", ""},
@@ -1431,9 +1440,9 @@ func main() {
 	vlib.Main(vlib.Spec{
 		ID:    "C19",
 		Level: "exploration",
-		Rule: "one law table per filter, each law on a full grid: all strings of length <= 4 (quick 3) over {a B space é ß 日 newline}; the case laws on every code point (quick: BMP); all lists of length <= 4 (quick 3) " +
+		Rule: "one law table per filter, each law on a full grid: all strings of length <= 5 (quick 4) over {a B space é ß 日 newline}; the case laws on every code point (quick: BMP); all lists of length <= 4 (quick 3) " +
 			"over 4 numbers / 4 strings / 4 floats as []interface{}, []int, []string, []float64; all maps with <= 3 entries as map[string]interface{}/int/string, map[int]string; slice(start[, length]) for every start in [-n-2, n+2] " +
-			"and length in {omitted} ∪ [-n-2, n+2] on every string over {a é 日} and lists of n <= 4 (quick 3) items, literal and variable arguments; join|split over 7 separators; default over 45 values x 3 positions; " +
+			"and length in {omitted} ∪ [-n-2, n+2] on every string over {a é 日} and on lists ([]interface{}, []string, []int) of n <= 5 (quick 4) items, literal and variable arguments; join|split over 7 separators; default over 40 values x 3 positions; " +
 			"merge over all pairs of lists of length <= 2 and maps of <= 2 entries in all type combinations; abs, round(p, method), number_format(d, point, sep) on every decimal k/1000, |k| <= 3000, p,d in 0..3 " +
 			"(thorough k/10000, |k| <= 30000, 0..4); one fresh engine per case; non-trivial = the filter has something to do (output differs from input, index clamped, digits dropped, keys overlap, ...)",
 		Assumptions: []string{
@@ -1445,12 +1454,12 @@ func main() {
 		ThoroughDeadline: 1200,
 		Run: func(t *vlib.T) {
 			th := t.Thorough()
-			n := 3
+			ns, nl, nsl := 4, 3, 4 // string length, list length, slice grid size
 			if th {
-				n = 4
+				ns, nl, nsl = 5, 4, 5
 			}
-			strs := allStrings(strAlpha, n)
-			lists := listsOf(n, true)
+			strs := allStrings(strAlpha, ns)
+			lists := listsOf(nl, true)
 			maps3 := mapsOf([]string{"a", "b", "c"}, []int{0, 1, 2}, 3, []string{"any", "int", "string"})
 			lawDefault(t)
 			lawIdempotent(t, strs)
@@ -1460,7 +1469,7 @@ func main() {
 			lawKeys(t, maps3)
 			lawJoinSplit(t, 3)
 			lawMerge(t, listsOf(2, false), mapsOf([]string{"a", "b", "c"}, []int{0, 1, 2}, 2, []string{"any", "int"}))
-			lawSliceGrid(t, n)
+			lawSliceGrid(t, nsl)
 			if th {
 				lawCasePoints(t, 0x10FFFF)
 				lawNumbers(t, 4, 30000)
